@@ -2,6 +2,10 @@
  *   s <hash-imprint-hex> <level> <ver> <key-hex> <reply-hex>
  *       new context (its first request gets id 1), KSI_Signature_signAggregated(ctx, hash, level, &sig)
  *     => S<status> [R<signature-hex>]
+ *   sp <hash-imprint-hex> <level> <ver> <key-hex> <reply-hex> <other-hash-hex>   as s, through KSI_Signature_signAggregatedWithPolicy with a caller's
+ *       verification context that still holds another document's hash      => as s
+ *   se <hash-imprint-hex> <level> <key-hex> <response-element-hex>
+ *       PDU v1: the reply echoes the client's own header, request and MAC and carries the response beside them => F<reply-hex> S<status> [R…]
  *   q <hash-imprint-hex> <level> <ver> <login-hex> <key-hex>
  *       the request the blocking interface sends: KSI_createSignRequest + KSI_sendSignRequest, octets handed to the transport
  *     => Q<status> [<request-hex>]
@@ -53,6 +57,75 @@ static void do_line(char *work, const char *orig) {
 		}
 		KSI_Signature_free(sig); KSI_DataHash_free(hsh); KSI_CTX_free(ctx);
 		unlink(uri + 7); free(h); free(reply); free(key);
+	} else if (n >= 7 && !strcmp(w[0], "sp")) {
+		/* as `s`, through KSI_Signature_signAggregatedWithPolicy with a CALLER's verification context that still carries the hash
+		 * (and level) of another document: what is verified is the hash that was sent for signing */
+		KSI_CTX *ctx = NULL; KSI_Signature *sig = NULL; KSI_DataHash *hsh = NULL, *stale = NULL; size_t hl, rn, ol; int r;
+		unsigned char *h = unhex(w[1], &hl), *reply = unhex(w[5], &rn), *oh = unhex(w[6], &ol); char *key = cstr_of(w[4]), uri[96];
+		unsigned long long level = strtoull(w[2], NULL, 10); KSI_VerificationContext vc;
+		KSI_CTX_new(&ctx);
+		snprintf(uri, sizeof(uri), "file://%s", tmp_with(reply, rn));
+		KSI_CTX_setOption(ctx, KSI_OPT_AGGR_PDU_VER, (void *)(size_t)atoi(w[3]));
+		KSI_CTX_setAggregator(ctx, uri, "anon", key);
+		KSI_VerificationContext_init(&vc, ctx);
+		if (KSI_DataHash_fromImprint(ctx, h, hl, &hsh) != KSI_OK || KSI_DataHash_fromImprint(ctx, oh, ol, &stale) != KSI_OK) printf("BAD-HASH");
+		else {
+			vc.documentHash = stale; vc.docAggrLevel = 0;
+			r = KSI_Signature_signAggregatedWithPolicy(ctx, hsh, level, KSI_VERIFICATION_POLICY_INTERNAL, &vc, &sig);
+			printf("S%d", r);
+			if (r == KSI_OK && sig != NULL) { unsigned char *ser = NULL; size_t sl = 0; KSI_Signature_serialize(sig, &ser, &sl); printf(" R"); puthex(stdout, ser, sl); KSI_free(ser); }
+			else if (sig != NULL) printf(" RESULT-WITH-ERROR");
+			else if (r == KSI_OK) printf(" OK-WITHOUT-RESULT");
+		}
+		vc.documentHash = NULL; vc.signature = NULL;
+		KSI_VerificationContext_clean(&vc);
+		KSI_Signature_free(sig); KSI_DataHash_free(hsh); KSI_DataHash_free(stale); KSI_CTX_free(ctx);
+		unlink(uri + 7); free(h); free(reply); free(oh); free(key);
+	} else if (n >= 5 && !strcmp(w[0], "se")) {
+		/* a forged PDU v1 reply that echoes the client's own header, request and MAC and puts a response beside them:
+		 * the request is obtained from a context configured the same way; => F<forged-reply-hex> S<status> [R…] */
+		KSI_CTX *ctx = NULL, *c0 = NULL; KSI_Signature *sig = NULL; KSI_DataHash *hsh = NULL, *h0 = NULL; KSI_AggregationReq *req = NULL; KSI_RequestHandle *handle = NULL;
+		size_t hl, pn, ql = 0, fl = 0, off; int r; const unsigned char *rq = NULL;
+		unsigned char *h = unhex(w[1], &hl), *resp = unhex(w[4], &pn), *forged = NULL; char *key = cstr_of(w[3]), uri[96];
+		unsigned long long level = strtoull(w[2], NULL, 10);
+		KSI_CTX_new(&c0);
+		snprintf(uri, sizeof(uri), "file://%s", tmp_with((const unsigned char *)"", 0));
+		KSI_CTX_setOption(c0, KSI_OPT_AGGR_PDU_VER, (void *)(size_t)1);
+		KSI_CTX_setAggregator(c0, uri, "anon", key);
+		r = KSI_DataHash_fromImprint(c0, h, hl, &h0);
+		if (r == KSI_OK) r = KSI_createSignRequest(c0, h0, (int)level, &req);
+		if (r == KSI_OK) r = KSI_sendSignRequest(c0, req, &handle);
+		if (r == KSI_OK) r = KSI_RequestHandle_getRequest(handle, &rq, &ql);
+		unlink(uri + 7);
+		if (r != KSI_OK || ql < 8) { printf("REQUEST-FAILED-%d", r); }
+		else {
+			/* children of the 0x200 element: header (01), request (0x201), MAC (1f); the response goes in front of the MAC */
+			size_t macAt = ql;
+			for (off = 4; off < ql; ) {
+				size_t hd = (rq[off] & 0x80) ? 4 : 2, dl = (rq[off] & 0x80) ? ((size_t)rq[off + 2] << 8 | rq[off + 3]) : rq[off + 1];
+				if (!(rq[off] & 0x80) && (rq[off] & 0x1f) == 0x1f) macAt = off;
+				off += hd + dl;
+			}
+			forged = malloc(ql + pn + 8);
+			memcpy(forged + 4, rq + 4, macAt - 4); memcpy(forged + macAt, resp, pn); memcpy(forged + macAt + pn, rq + macAt, ql - macAt);
+			fl = ql + pn;
+			forged[0] = 0x82; forged[1] = 0x00; forged[2] = (unsigned char)((fl - 4) >> 8); forged[3] = (unsigned char)((fl - 4) & 0xff);
+			printf("F"); puthex(stdout, forged, fl); putchar(' ');
+			KSI_CTX_new(&ctx);
+			snprintf(uri, sizeof(uri), "file://%s", tmp_with(forged, fl));
+			KSI_CTX_setOption(ctx, KSI_OPT_AGGR_PDU_VER, (void *)(size_t)1);
+			KSI_CTX_setAggregator(ctx, uri, "anon", key);
+			KSI_DataHash_fromImprint(ctx, h, hl, &hsh);
+			r = KSI_Signature_signAggregated(ctx, hsh, level, &sig);
+			printf("S%d", r);
+			if (r == KSI_OK && sig != NULL) { unsigned char *ser = NULL; size_t sl = 0; KSI_Signature_serialize(sig, &ser, &sl); printf(" R"); puthex(stdout, ser, sl); KSI_free(ser); }
+			else if (sig != NULL) printf(" RESULT-WITH-ERROR");
+			else if (r == KSI_OK) printf(" OK-WITHOUT-RESULT");
+			unlink(uri + 7);
+		}
+		KSI_Signature_free(sig); KSI_DataHash_free(hsh); KSI_CTX_free(ctx);
+		KSI_RequestHandle_free(handle); KSI_AggregationReq_free(req); KSI_DataHash_free(h0); KSI_CTX_free(c0);
+		free(h); free(resp); free(forged); free(key);
 	} else if (n >= 6 && !strcmp(w[0], "q")) {
 		KSI_CTX *ctx = NULL; KSI_DataHash *hsh = NULL; KSI_AggregationReq *req = NULL; KSI_RequestHandle *handle = NULL; size_t hl; int r;
 		unsigned char *h = unhex(w[1], &hl); char *login = cstr_of(w[4]), *key = cstr_of(w[5]), uri[96];
